@@ -42,8 +42,6 @@ struct Driver {
     real_budget: u32,
     /// how many creations needing Orchard-family proofs this shard may still run for real
     halo2_budget: u32,
-    /// per-shard cap on seconds spent in transaction creation
-    create_budget_ms: u64,
     create_spent_ms: u64,
 }
 
@@ -276,6 +274,10 @@ fn proposal_op(wd: &mut World, r: &mut Reporter, d: &mut Driver) {
                 r.count("proposals_returned_with_lock_request", 1);
             }
             apply_lock_request(wd, &q, target, &ck.inputs);
+            if u32::from(p.confirmations_policy().trusted()) != q.pol.trusted {
+                // propose_transfer switched to a bucketed (ZIP 318 canonical crossing) anchor
+                r.count("proposals_on_bucketed_anchor", 1);
+            }
             sendmax_tightness(wd, r, &q, &v, &p, &ck.inputs);
             after_ok(wd, r, d, q.clone(), Held::Notes(q.clone(), p, ck.inputs), ck.violated);
         }
@@ -325,7 +327,7 @@ fn sendmax_tightness(wd: &World, r: &mut Reporter, q: &Req, v: &View, p: &NotePr
     let sel: BTreeSet<InKey> = inputs.iter().flatten().copied().collect();
     let mut missing = 0;
     for n in v.notes.values() {
-        if !q.pools.contains(&n.key.pool) || n.value <= 5000 || n.height > anchor {
+        if !q.pools.contains(&n.key.pool) || n.value <= 5000 || n.height > anchor || n.spent_orphan {
             continue;
         }
         if v.note_inel(n, q.account, &q.pol, &admitted, q.req_owner()).is_none() && !sel.contains(&InKey::Note(n.key)) {
@@ -372,7 +374,8 @@ fn after_ok(wd: &mut World, r: &mut Reporter, d: &mut Driver, q: Req, h: Held, v
     if violated {
         return;
     }
-    let can_create = wd.creates_done < wd.cfg.max_creates && d.create_spent_ms < d.create_budget_ms && r.time_left();
+    // (count-based budgets only: a history's course must not depend on the clock)
+    let can_create = wd.creates_done < wd.cfg.max_creates;
     let roll = wd.rng.gen_range(0..100);
     if can_create && roll < 22 {
         do_create(wd, r, d, h);
@@ -391,7 +394,8 @@ fn do_create(wd: &mut World, r: &mut Reporter, d: &mut Driver, h: Held) {
     let n_inputs = match &h {
         Held::Notes(_, _, i) | Held::Shield(_, _, i) => i.iter().map(|s| s.len()).sum::<usize>(),
     };
-    let use_real = d.real_budget > 0 && n_inputs <= 2 && wd.rng.gen_bool(0.7);
+    let real_roll = wd.rng.gen_bool(0.7);
+    let use_real = d.real_budget > 0 && n_inputs <= 2 && real_roll;
     let t0 = std::time::Instant::now();
     // Orchard-family proofs cost seconds each: only a few per shard go through the real builder,
     // the rest through the fabricated-transaction fallback (or are not created at all)
@@ -519,7 +523,7 @@ fn run_history(i: u64, cfg: Cfg, rng: rand_chacha::ChaCha20Rng, r: &mut Reporter
             }
             96..=97 => {
                 if let Some(h) = d.held.take() {
-                    if wd.creates_done < wd.cfg.max_creates + 1 && d.create_spent_ms < d.create_budget_ms {
+                    if wd.creates_done < wd.cfg.max_creates + 1 {
                         r.count("deferred_creations_attempted", 1);
                         do_create(&mut wd, r, d, h);
                     }
@@ -568,9 +572,9 @@ fn main() {
     let mut d = Driver {
         provers: Provers { real: None },
         held: None,
-        real_budget: args.get_u64("real-prover-txs", if thorough { 12 } else { 1 }) as u32,
+        // the bundled Sapling prover costs seconds per spend under load: quick tier uses it in every 4th shard
+        real_budget: args.get_u64("real-prover-txs", if thorough { 12 } else if args.shard % 4 == 0 { 1 } else { 0 }) as u32,
         halo2_budget: args.get_u64("halo2-txs", if thorough { 10 } else { 0 }) as u32,
-        create_budget_ms: (args.budget_s * 1000.0 * 0.45) as u64,
         create_spent_ms: 0,
     };
     for i in 0..n {
